@@ -227,8 +227,11 @@ class FuncPart:
 
 def _shard_worker(args: Tuple[str, str, str, int, int, int]) -> dict:
     check_id, part_name, tier, seed, shard, nshards = args
+    t0 = time.time()
     try:
-        return _shard_worker_inner(check_id, part_name, tier, seed, shard, nshards)
+        r = _shard_worker_inner(check_id, part_name, tier, seed, shard, nshards)
+        r["seconds"] = time.time() - t0
+        return r
     except BaseException as e:  # harness error
         return {"harness_error": "".join(traceback.format_exception(type(e), e, e.__traceback__))[-6000:], "stats": Stats().to_dict()}
     finally:
@@ -282,6 +285,7 @@ def _shard_worker_inner(check_id: str, part_name: str, tier: str, seed: int, sha
             stats.examples += 1
             old_handler = signal.signal(signal.SIGALRM, _case_alarm)
             signal.alarm(budget)
+            tc = time.time()
             try:
                 part.run_case(case, stats)
             except CaseTimeout:
@@ -294,6 +298,11 @@ def _shard_worker_inner(check_id: str, part_name: str, tier: str, seed: int, sha
             finally:
                 signal.alarm(0)
                 signal.signal(signal.SIGALRM, old_handler)
+                if os.environ.get("BPVERIF_SLOWLOG") and time.time() - tc > float(os.environ["BPVERIF_SLOWLOG"]):
+                    try:
+                        sys.stderr.write(f"SLOW {check_id}/{part.name} shard {shard}: {time.time() - tc:.0f}s {(lambda t: t[:900] + ' ... ' + t[-500:])(str(part.describe(case) if part.describe else case))}\n")
+                    except Exception:
+                        pass
 
         try:
             test()
@@ -371,6 +380,7 @@ def run_check(check_id: str, tier: str, seed: int, jobs: int = 16) -> int:
             pp = per_part.setdefault(pname, {"evaluations": 0, "shards": 0})
             pp["shards"] += 1
             pp["evaluations"] += res["stats"]["evaluations"]
+            pp["slowest_shard_s"] = round(max(pp.get("slowest_shard_s", 0.0), res.get("seconds", 0.0)), 1)
             _merge(merged, res["stats"])
             if "harness_error" in res:
                 harness_errors.append(f"[{pname} shard {task[4]}]\n" + res["harness_error"])
